@@ -119,9 +119,10 @@ type expSession struct {
 	// C01: called when the application reaches a "cstall" op
 	onConsumerStall func(d time.Duration)
 	// the last data call that went through the plain path and succeeded (op "resend")
-	lastData   *callRec
-	lastDataID uint16
-	lastDataOp int
+	lastData     *callRec
+	lastDataID   uint16
+	lastDataOp   int
+	lastDataPath string
 }
 
 type writeCall struct {
@@ -931,7 +932,7 @@ func (s *expSession) opData1(i int, op plan.Op) {
 	c.MsgLen = total
 	s.send(c)
 	if last := s.calls[len(s.calls)-1]; last.Valid && last.Err == nil && len(op.F) == 0 {
-		s.lastData, s.lastDataID, s.lastDataOp = &last, ti.ID, i
+		s.lastData, s.lastDataID, s.lastDataOp, s.lastDataPath = &last, ti.ID, i, op.S
 	} else {
 		s.lastData = nil
 	}
@@ -942,7 +943,7 @@ func (s *expSession) opData1(i int, op plan.Op) {
 // the type and id the Set already has (which changes nothing). The same records go out again, as a
 // new message that counts like any other.
 func (s *expSession) opResend(i int, op plan.Op) {
-	if s.lastData == nil || i != s.lastDataOp+1 || s.set.GetNumberOfRecords() != uint32(len(s.lastData.Records)) || s.set.GetSetType() != entities.Data {
+	if s.lastData == nil || i != s.lastDataOp+1 || s.set.GetNumberOfRecords() != uint32(len(s.lastData.Records)) || s.set.GetSetType() != entities.Data || len(s.lastData.Records) == 0 {
 		return // only directly after the send: nothing else has touched the Set
 	}
 	s.lastDataOp = i
@@ -952,8 +953,45 @@ func (s *expSession) opResend(i int, op plan.Op) {
 		}
 	}
 	c := callRec{Op: i, Kind: "data", Slot: s.lastData.Slot, Valid: true, MsgLen: s.lastData.MsgLen, Records: s.lastData.Records}
+	if op.S == "grow" {
+		// the batch has grown since it was sent: one more record is added to the Set as it stands, through
+		// the add path used before, and the whole batch goes out again
+		ti := s.tmpls[s.lastData.Slot]
+		if ti == nil || c.MsgLen > 30000 {
+			return
+		}
+		r := rand.New(rand.NewPCG(uint64(op.C), 0xda7f))
+		elems := make([]entities.InfoElementWithValue, len(ti.Specs))
+		wires := make([][]byte, len(ti.Specs))
+		for k, sp := range ti.Specs {
+			ie, err := registry.GetInfoElement(sp.Name, sp.Ent)
+			if err != nil {
+				panic(err)
+			}
+			wires[k] = genWire(r, sp, 20)
+			elems[k] = mkElement(sp, ie, wires[k])
+			c.MsgLen += encodedLen(sp, wires[k])
+		}
+		var err error
+		switch s.lastDataPath {
+		case "extra":
+			err = s.set.AddRecordWithExtraElements(elems, 2, ti.ID)
+		case "v2":
+			err = s.set.AddRecordV2(elems, ti.ID)
+		default:
+			err = s.set.AddRecord(elems, ti.ID)
+		}
+		if err != nil {
+			panic(err)
+		}
+		c.Records = append(append([]sentRecord(nil), c.Records...), sentRecord{Wires: wires})
+		s.env.Count("probe.batch_grown_and_sent_again", 1)
+	}
 	s.env.Count("probe.same_set_sent_again", 1)
 	s.send(c)
+	if last := s.calls[len(s.calls)-1]; last.Err == nil {
+		s.lastData = &last
+	}
 }
 
 // opDataReuse is the other way applications use the entities API: the element objects of a template
